@@ -26,11 +26,14 @@ type fsNode struct {
 }
 
 type openFile struct {
-	node   *fsNode
-	off    int
-	app    bool
-	rd, wr bool
-	closed bool
+	isDir   bool
+	dirPath string
+	path    value
+	node    *fsNode
+	off     int
+	app     bool
+	rd, wr  bool
+	closed  bool
 }
 
 type FS struct {
